@@ -428,6 +428,13 @@ Proof.
     + set (j := Z.max 0 (eo_mode (lookup no_eora ora c0) - 2)).
       set (f := fun r1 : consumer => set_sent (c_sent r1 + j) r1).
       assert (Hf : forall r1, c_id r1 = c0 -> c_id (f r1) = c0) by (intros r1 H; exact H).
+      destruct (eo_stopfail (lookup no_eora ora c0)).
+      { split; [reflexivity|]. split; [reflexivity|]. intros c r Hg.
+        destruct (Z.eq_dec c0 c) as [->|Hne].
+        - rewrite Hg in Hg0. inversion Hg0; subst r0. exists (f r). split; [apply (get_upd_same s c f r Hf Hg)|].
+          right. split; [exact E|]. simpl. split; [reflexivity|]. split; [reflexivity|]. split; [repeat split|].
+          left. split; [exact E | reflexivity].
+        - exists r. split; [|now left]. rewrite (get_upd_other s c0 c f Hf Hne). exact Hg. }
       destruct (stop_fields U (upd s c0 f) c0) as (F1 & F2 & _). split; [exact F2|]. split; [exact F1|].
       intros c r Hg. rewrite stop_get. destruct (c0 =? c) eqn:Ec.
       * apply Z.eqb_eq in Ec. subst c0. rewrite (get_upd_same s c f r Hf Hg). simpl. eexists. split; [reflexivity|].
@@ -787,6 +794,7 @@ Proof.
       destruct (_ =? 0); [split; [reflexivity | simpl; tauto]|].
       destruct (_ =? 1); [split; [reflexivity | tauto]|].
       destruct (_ <=? _); [split; [reflexivity | simpl; tauto]|].
+      destruct (eo_stopfail _); [split; [reflexivity | simpl; tauto]|].
       match goal with |- context [stop_and_prepare U ?sx c1] => set (s0' := sx) end.
       assert (Hi0' : inv s0').
       { unfold s0'. apply inv_upd_same with (r := r1);
